@@ -28,7 +28,11 @@ AllVaas == {
     [id |-> "D", setIdx |-> 0, sigs |-> <<Sig(0, "g2"), Sig(1, "g3"), Sig(2, "g4")>>],   \* valid under set 1 only, names set 0
     [id |-> "E", setIdx |-> 1, sigs |-> <<Sig(0, "g2"), Sig(1, "g3"), Sig(2, "g4")>>],   \* a later set, valid
     [id |-> "F", setIdx |-> 2, sigs |-> <<Sig(0, "g4")>>],                               \* a later (future) set, valid
-    [id |-> "G", setIdx |-> 1, sigs |-> <<Sig(0, "g1"), Sig(1, "g2"), Sig(2, "g3")>>]    \* valid under set 0 only, names set 1
+    [id |-> "G", setIdx |-> 1, sigs |-> <<Sig(0, "g1"), Sig(1, "g2"), Sig(2, "g3")>>],   \* valid under set 0 only, names set 1
+    \* naming the newest index (unknown to the explorer until it is fetched, not even on chain at first), signed by ...
+    [id |-> "H", setIdx |-> 2, sigs |-> <<Sig(0, "g1"), Sig(1, "g2"), Sig(2, "g3")>>],   \* ... all keys of set 0 (the current set at first)
+    [id |-> "I", setIdx |-> 2, sigs |-> <<Sig(0, "g2"), Sig(1, "g3"), Sig(2, "g4")>>],   \* ... a quorum of set 1
+    [id |-> "J", setIdx |-> 2, sigs |-> <<Sig(0, "x1")>>]                                \* ... an outsider
   }
 Vaas == {v \in AllVaas : v.id \in VaaNames}
 
